@@ -36,7 +36,7 @@ structure TxInv (cfg : Cfg) (V0 : VTable TKey) (L0 : Live) (pre : List Ev)
       ∃ o ∈ ops, o.cls = c ∧ o.pk = pk
   done : ∀ o ∈ ops, o.processed = true → ∀ tc ∈ (cfg.cls o.cls).tables, ∃ T, cur = some T ∧
       Has V (tc.1, o.pk) T ∧
-      ∀ r ∈ V, r.key = (tc.1, o.pk) → r.tx = T → r.op = o.op ∧ r.vals = wvals cfg o tc.2
+      ∀ r ∈ V, r.key = (tc.1, o.pk) → r.tx = T → r.op = o.op ∧ r.vals = wvals cfg o tc
 
 variable {cfg : Cfg} {V0 : VTable TKey} {L0 : Live} {pre : List Ev} {V : VTable TKey} {L : Live}
   {cur : Option Nat} {ops : List OpEntry}
@@ -248,7 +248,7 @@ theorem TxInv.flush (hnd : TablesNodup cfg) {T : Nat} (h : TxInv cfg V0 L0 pre V
       obtain ⟨o, ho, hp, tc, htc, hwe⟩ := mem_allWrites.1 hw
       have hL := h.dirty o ho hp tc htc
       have hk : k = (tc.1, o.pk) := by rw [← hwk, hwe]; rfl
-      have hnd' : ndata (wrs cfg.strategy V T (allWrites cfg ops)) k = some (o.op, wvals cfg o tc.2) := by
+      have hnd' : ndata (wrs cfg.strategy V T (allWrites cfg ops)) k = some (o.op, wvals cfg o tc) := by
         rw [hsplit, ← hwk]
         have := ndata_wrs_last cfg.strategy T l1 l2 w V hb (by rw [hwk]; exact hl2)
         rw [this, hwe]; rfl
